@@ -216,7 +216,31 @@ def overflow_case(r, ch):
     target = 1
     if ch.chance(56):
         return local_overflow_case(r, ch, s, client)
-    kind = ch.weighted([(3, 'open'), (2, 'promised'), (1, 'half-closed')])
+    kind = ch.weighted([(3, 'open'), (2, 'promised'), (1, 'half-closed'), (2, 'closed')])
+    if kind == 'closed':
+        # the stream has been closed (reset by either side, or ended both ways) and the library may still hold it:
+        # window increments for it, ours or the peer's, are void, so no later in-range INITIAL_WINDOW_SIZE - from
+        # the peer, or our own once acknowledged - can overflow anything
+        how = ch.pick(['local-rst', 'peer-rst'])
+        o = s.call('reset_stream', 1) if how == 'local-rst' else s.feed(wire.rst_stream(1, wire.CANCEL))
+        inc = ch.boundary([1, top - 65535, 2**30, top], 1, top)
+        o1 = s.feed(wire.window_update(1, inc)) if o.ok else o
+        o2 = s.call('increment_flow_control_window', min(inc, top - 65535), 1)      # refused: the stream is closed
+        v = ch.boundary([65536, 70000, top, 0], 0, top)
+        if ch.bool():
+            o3 = s.feed(wire.settings([(wire.S_INITIAL_WINDOW_SIZE, v)]))
+        else:
+            o3 = s.call('update_settings', {wire.S_INITIAL_WINDOW_SIZE: v})
+            o3 = s.feed(wire.settings(ack=True)) if o3.ok else o3
+        r.step('closed stream', how, 'WINDOW_UPDATE', inc, o1.brief(), 'local increment', o2.brief(),
+               'INITIAL_WINDOW_SIZE', v, o3.brief())
+        if not o.ok or not o1.ok:
+            r.violate('C12:closed-stream:window-update-on-closed-stream-rejected', '%s %s' % (o.brief(), o1.brief()))
+        elif not o3.ok:
+            r.violate('C12:closed-stream:legal-change-rejected:%s' % o3.exc_name, 'inc=%d iws=%d' % (inc, v))
+        r.nontrivial = True
+        r.labels.add('overflow-scenario-on-closed-stream')
+        return
     if kind == 'promised' and not client:
         # a stream the server has promised but not yet answered (reserved (local)) has a send window too
         o = s.call('push_stream', 1, 2, REQ)
